@@ -79,7 +79,7 @@ check("C17", "exploration",
       "DESIGN.md §3 C17")
 check("C19", "fault_enumeration",
       "exhaustive enumeration of CLI scenarios (file sets x flags) with an in-process library oracle + fault enumeration: RLIMIT_FSIZE at every byte offset (short write and kill) and strace fault/kill injection at every system call of the in-place writers",
-      "The gosqlx binary built from the working tree runs in isolated scratch directories over all file-class sets (<=3 files), stdin and inline input, every flag and flag pair of format / validate / lint / parse: exit status iff the library accepts, check-only modes modify nothing, stdout vs -i vs --check consistent (a run given --check together with -i is a check-only run), JSON/SARIF well-formed and naming exactly the rejected inputs, every way of naming inputs to validate (paths, quoted glob patterns, directories with -r, alone and in ordered pairs) is judged by the files it stands for, what a multi-file run writes or prints for one file equals the single-file run (including after files the formatter cannot render); for format -i and lint --auto-fix every write-failure point leaves the original or the complete new file.",
+      "The gosqlx binary built from the working tree runs in isolated scratch directories over all file-class sets (<=3 files), stdin and inline input, every flag and flag pair of format / validate / lint / parse: exit status iff the library accepts, check-only modes modify nothing, stdout vs -i vs --check consistent (a run given --check together with -i is a check-only run), JSON/SARIF well-formed and naming exactly the rejected inputs, every way of naming inputs to validate (paths, quoted glob patterns, directories with -r, alone and in ordered pairs) is judged by the files it stands for, lint -r over existing / missing directories and good / malformed patterns is judged by linter.LintDirectory, what a multi-file run writes or prints for one file equals the single-file run (including after files the formatter cannot render); for format -i and lint --auto-fix every write-failure point leaves the original or the complete new file.",
       "Trusted: RLIMIT_FSIZE / ptrace / strace injection semantics of this kernel.",
       "DESIGN.md §2.6, §3 C19", engine="engine/common + tools/fsize")
 
